@@ -473,6 +473,10 @@ def main():
         out = []
         res['predictions_checked'] += fortran_corpus(lambda key, what, **kw: out.append(dict(key=key, what=what, **kw)), stats)
         res['violations'] += out
+    for c_, q_ in corpus_objects():          # distilled regression inputs first
+        v, n = safe_predict(c_, rng, q_, thorough=False, stats=stats)
+        res['predictions_checked'] += n; res['violations'] += v; res['configs'] += 1
+        dist['corpus'] = dist.get('corpus', 0) + 1
     while tried < nn and (a.mode == 'check' or (time.time() - t0 < a.budget and not res['violations'])):
         tried += 1
         sg = [(1, 1), (1, -1), (-1, 1), (-1, -1)][int(rng.integers(0, 4))]
